@@ -346,31 +346,7 @@ func c19(c *an.Ctx) {
 	})
 
 	c.Check("R-ERR", "parseIf rejects a missing or non-boolean `if` with an error", 3, func(o *an.O) {
-		fn := c.NeedFunc(gq, "parseIf")
-		nErr, nOK := 0, 0
-		for _, e := range an.Exits(fn, false) {
-			ret := e.(*ssa.Return)
-			o.Site(e)
-			if isConstNil(ret.Results[1]) {
-				nOK++
-				// success: value is args[if].(bool) and both tests passed
-				gs := strings.Join(an.GuardStrings(e.Block()), " ; ")
-				if !strings.Contains(gs, "!= nil)") && !strings.Contains(gs, "== nil)") {
-					o.FailAt(e, "parseIf succeeds without testing that `if` was provided (guards: %s)", gs)
-				}
-				if !strings.Contains(gs, ".(bool)#1") {
-					o.FailAt(e, "parseIf succeeds without testing that `if` is a boolean (guards: %s)", gs)
-				}
-				continue
-			}
-			nErr++
-			if cst, ok := ret.Results[0].(*ssa.Const); !ok || cst.Value == nil || cst.Value.ExactString() != "false" {
-				o.FailAt(e, "parseIf returns a truthy verdict together with an error")
-			}
-		}
-		if nErr < 2 || nOK != 1 {
-			o.Fail(p.Pos(fn.Pos()), "parseIf must have error returns for a missing and for a non-boolean `if` and one success return (found %d/%d)", nErr, nOK)
-		}
+		ruleParseIf(c, o)
 	})
 }
 
@@ -409,4 +385,36 @@ func overParameter(e *ssa.UnOp) bool {
 	}
 	_, isParam := fa.X.(*ssa.Parameter)
 	return isParam
+}
+
+// ruleParseIf (C19, C15): the directive condition comes from the client (a literal, or a variable
+// that may be absent or null): parseIf must turn a missing or non-boolean `if` into an error.
+func ruleParseIf(c *an.Ctx, o *an.O) {
+	p := c.P
+	_ = p
+	fn := c.NeedFunc(gq, "parseIf")
+	nErr, nOK := 0, 0
+	for _, e := range an.Exits(fn, false) {
+		ret := e.(*ssa.Return)
+		o.Site(e)
+		if isConstNil(ret.Results[1]) {
+			nOK++
+			// success: value is args[if].(bool) and both tests passed
+			gs := strings.Join(an.GuardStrings(e.Block()), " ; ")
+			if !strings.Contains(gs, "!= nil)") && !strings.Contains(gs, "== nil)") {
+				o.FailAt(e, "parseIf succeeds without testing that `if` was provided (guards: %s)", gs)
+			}
+			if !strings.Contains(gs, ".(bool)#1") {
+				o.FailAt(e, "parseIf succeeds without testing that `if` is a boolean (guards: %s)", gs)
+			}
+			continue
+		}
+		nErr++
+		if cst, ok := ret.Results[0].(*ssa.Const); !ok || cst.Value == nil || cst.Value.ExactString() != "false" {
+			o.FailAt(e, "parseIf returns a truthy verdict together with an error")
+		}
+	}
+	if nErr < 2 || nOK != 1 {
+		o.Fail(p.Pos(fn.Pos()), "parseIf must have error returns for a missing and for a non-boolean `if` and one success return (found %d/%d)", nErr, nOK)
+	}
 }
